@@ -28,7 +28,7 @@ class SpatialGradient2D:
     def forward_y(self, x):
         """Compute the Y spatial gradient of an array."""
         assert x.ndim == 2, 'This operator only works on 2D arrays.'
-        end = x.shape[1]
+        end = x.shape[0]
         ind_compute = slice(1, end-1)
         ind_lookahead = slice(2, end)
         out = np.zeros_like(x)
@@ -38,7 +38,7 @@ class SpatialGradient2D:
     def backprop_y(self, xbar):
         """Backpropagate through Y spatial gradient of an array."""
         assert xbar.ndim == 2, 'This operator only works on 2D arrays.'
-        end = xbar.shape[1]
+        end = xbar.shape[0]
         ind_compute = slice(1, end-1)
         ind_lookbehind = slice(0, end-2)
         out = np.zeros_like(xbar)
